@@ -40,6 +40,7 @@ pub struct Env {
     steps: u8,
 }
 pub static mut ENV: Option<Env> = None;
+pub static mut BUDGET: u8 = 3;
 
 fn env_step(_a: Address) {
     let e = match unsafe { ENV.as_mut() } {
@@ -81,7 +82,7 @@ struct Setup {
 fn setup(s: &mut Src, obj_addr: usize, byte: *mut u8, shift: u8, from: u8, to: u8) -> Setup {
     let init = unsafe { *byte };
     unsafe {
-        ENV = Some(Env { src: s as *mut Src, byte, shift, to, from, budget: 3, active: true, other_did_it: false, neigh: init & !(1 << shift), steps: 0 });
+        ENV = Some(Env { src: s as *mut Src, byte, shift, to, from, budget: BUDGET, active: true, other_did_it: false, neigh: init & !(1 << shift), steps: 0 });
         verif_env::STEP = Some(env_step);
     }
     Setup { obj: unsafe { ObjectReference::from_raw_address_unchecked(Address::from_usize(obj_addr)) }, init_field: (init >> shift) & 1 }
@@ -211,6 +212,26 @@ pub fn c18_unpin_side(_s: &mut Src) {}
 #[cfg(not(feature = "object_pinning"))]
 pub fn c18_pin_header(_s: &mut Src) {}
 
+/// Thorough tier: 5 interfering steps.
+pub fn c18_mark_side_deep(s: &mut Src) {
+    unsafe {
+        BUDGET = 5;
+    }
+    c18_mark_side(s)
+}
+pub fn c18_log_header_deep(s: &mut Src) {
+    unsafe {
+        BUDGET = 5;
+    }
+    c18_log_header(s)
+}
+pub fn c18_pin_side_deep(s: &mut Src) {
+    unsafe {
+        BUDGET = 5;
+    }
+    c18_pin_side(s)
+}
+
 harnesses! {
     #[kani::unwind(6)] #[kani::stub(alloc::fmt::format, crate::env::stub_format)] c18_mark_side; // timeout=900
     #[kani::unwind(6)] #[kani::stub(alloc::fmt::format, crate::env::stub_format)] c18_mark_header; // timeout=900
@@ -219,4 +240,7 @@ harnesses! {
     #[kani::unwind(6)] #[kani::stub(alloc::fmt::format, crate::env::stub_format)] c18_pin_side; // timeout=900 features=object_pinning
     #[kani::unwind(6)] #[kani::stub(alloc::fmt::format, crate::env::stub_format)] c18_unpin_side; // timeout=900 features=object_pinning
     #[kani::unwind(6)] #[kani::stub(alloc::fmt::format, crate::env::stub_format)] c18_pin_header; // timeout=900 features=object_pinning
+    #[kani::unwind(8)] #[kani::stub(alloc::fmt::format, crate::env::stub_format)] c18_mark_side_deep; // tier=thorough timeout=1800
+    #[kani::unwind(8)] #[kani::stub(alloc::fmt::format, crate::env::stub_format)] c18_log_header_deep; // tier=thorough timeout=1800
+    #[kani::unwind(8)] #[kani::stub(alloc::fmt::format, crate::env::stub_format)] c18_pin_side_deep; // tier=thorough timeout=1800 features=object_pinning
 }
